@@ -7,6 +7,7 @@ use std::io::{self, BufRead, Write};
 use std::panic::{catch_unwind, AssertUnwindSafe};
 
 mod orswot;
+mod rpc;
 mod ts;
 
 pub trait Domain {
@@ -18,6 +19,7 @@ fn new_domain(name: &str, params: &[&str]) -> Option<Box<dyn Domain>> {
     match name {
         "ts" => Some(Box::new(ts::TsDomain::new(params))),
         "orswot" => Some(Box::new(orswot::OrswotDomain::new(params))),
+        "rpc" => Some(Box::new(rpc::RpcDomain::new(params))),
         _ => None,
     }
 }
